@@ -18,11 +18,14 @@ def build(tier, seed):
             raise SliceError('Function::codegen link_name_attr statement not found')
         i = mod.index('(', mod.index('or_else', m.start()))
         fn_stmt = mod[m.start():match_brace(mod, i)] + ';'
-        m = re.search(r'let symbol: &str = self\.link_name\(\)\.unwrap_or_else\(\|\| \{', mod)
+        m = re.search(r'let symbol: &str = ', mod)
         if not m:
             raise SliceError('Var::codegen symbol statement not found')
-        i = mod.index('(', mod.index('unwrap_or_else', m.start()))
-        var_stmt = mod[m.start():match_brace(mod, i)] + ';'
+        # the statement ends at the first `;` outside every bracket (it was an unwrap_or_else closure before the repair of F21, an if / else since)
+        i = m.end()
+        while mod[i] != ';':
+            i = match_brace(mod, i) if mod[i] in '({[' else i + 1
+        var_stmt = mod[m.start():i + 1]
         h = open(os.path.join(G, 'harness', 'c04.rs')).read()
         h = h.replace('/*ABI_ENUM*/', abi_enum).replace('/*NAMES_FN*/', names).replace('/*FN_STMT*/', fn_stmt).replace('/*VAR_STMT*/', var_stmt)
         kern = Kernel(name='link_name')
